@@ -207,12 +207,18 @@ type solverSpec struct {
 	args func(file string, timeoutS int) []string
 }
 
+// every solver process runs under a 6 GB address-space limit: a runaway instantiation (recursive definitions under a
+// failing obligation) must end as "unknown", not take the machine down with ten of them in parallel
+func limited(args ...string) []string {
+	return append([]string{"sh", "-c", `ulimit -v 6291456; exec "$0" "$@"`}, args...)
+}
+
 var solvers = []solverSpec{
-	{"z3-new", func(f string, t int) []string { return []string{"z3-new", fmt.Sprintf("-T:%d", t), f} }},
+	{"z3-new", func(f string, t int) []string { return limited("z3-new", fmt.Sprintf("-T:%d", t), f) }},
 	{"cvc5", func(f string, t int) []string {
-		return []string{"cvc5", fmt.Sprintf("--tlimit=%d", t*1000), "--full-saturate-quant", f}
+		return limited("cvc5", fmt.Sprintf("--tlimit=%d", t*1000), "--full-saturate-quant", f)
 	}},
-	{"z3", func(f string, t int) []string { return []string{"z3", fmt.Sprintf("-T:%d", t), f} }},
+	{"z3", func(f string, t int) []string { return limited("z3", fmt.Sprintf("-T:%d", t), f) }},
 }
 
 func runSolver(sp solverSpec, file string, timeoutS int) (verdict string, out string, secs float64) {
